@@ -334,6 +334,20 @@ def accumulates(facts, body, t, init_ok, src_ok, step_ok):
     for (bb, si), w in it.writes.items():
         if bb in lp.blocks and w.loc[0] == root and not (w.val[0] == 'lv' or versionless(w.val) == versionless(t)):
             other.append(bb)
+    # `acc = acc + x` (a by-value operator whose result is stored back) is the same step as `acc += x`
+    for bb, c in it.calls.items():
+        if bb not in lp.blocks or bb in sites or len(c.args) != 2:
+            continue
+        a0 = c.args[0].val
+        while a0[0] == 'at':
+            a0 = a0[2]
+        if a0[0] == 'lv' and a0[2] == local and step_ok(c, lp):
+            stored = c.dest is not None and not c.dest.get('proj') and (
+                c.dest['local'] == root[1] or any(l_ == root[1] and rv_ is not None and rv_.get('k') == 'use' and rv_['op'].get('k') in ('move', 'copy')
+                                                  and not rv_['op']['place']['proj'] and rv_['op']['place']['local'] == c.dest['local']
+                                                  for (b2, s2), (l_, v_, rv_) in it.assign_vals.items() if b2 in lp.blocks))
+            if stored:
+                sites.append(bb)
     if other or not sites:
         return False
     return lp.must(Reach(facts, body, Evaluator(facts)), sites)
